@@ -65,6 +65,9 @@ impl LuauRequireMode {
         if let Some(config) =
             utils::find_luau_configuration(context.current_path(), context.resources())?
         {
+            // the aliases decide which files the requires designate: what is produced
+            // for the current file depends on that configuration file
+            context.add_file_dependency(config.path);
             self.luau_rc_aliases.replace(config.aliases);
         } else {
             self.luau_rc_aliases.take();
